@@ -167,6 +167,24 @@ theorem ofCol_toCol (t : PType) (p : Prim) (c : ColVal) (h : toCol t p = some c)
 example : toCol (.dec16 38 2) (.dec16 2 (BitVec.ofInt 128 (-12345))) ≠ none := by decide
 example : toCol .int8 (.int8 0x80#8) = some (.i32 0xFFFFFF80#32) := by decide
 
+/-- **C19 (foreign typed_value encodings).** A DECIMAL typed_value leaf written by another writer
+    is a big-endian two's complement integer of ANY length `1 ≤ n ≤ 16` (minimal-length BYTE_ARRAY,
+    sign-padded BYTE_ARRAY, FIXED_LEN_BYTE_ARRAY(n)); `m` is its `n`-byte two's complement image.
+    The mirror of `parquetToVariantValue` / `bigEndianToLittleEndian16` reads it as the decimal16
+    holding the same integer: `m` itself when the sign bit (top bit of the FIRST byte) is clear,
+    `m - 256^n + 2^128` when it is set. -/
+theorem ofCol_decimal_any_length (p s n m : Nat) (hn1 : 1 ≤ n) (hn : n ≤ 16) (hm : m < 256 ^ n) :
+    ofCol (.dec16 p s) (.bytes (beN n m)) =
+      some (.dec16 (UInt8.ofNat s) (BitVec.ofNat 128
+        (if m < 128 * 256 ^ (n - 1) then m else m + (256 ^ 16 - 256 ^ n)))) := by
+  have hl : (beN n m).length ≤ 16 := by simp [beN]; exact hn
+  simp only [ofCol, hl, if_true, be16ToNat_short n m hn1 hn hm]
+
+example : ofCol (.dec16 20 2) (.bytes [0x00, 0xFF]) = some (.dec16 2 255#128) := by decide
+example : ofCol (.dec16 20 2) (.bytes [0xCF, 0x00]) = some (.dec16 2 (BitVec.ofInt 128 (-12544))) := by
+  decide
+example : (1 : Nat) ≤ 2 ∧ 2 ≤ 16 ∧ 0xCF00 < 256 ^ 2 := by decide
+
 /-- a partially shredding schema: `a` as int8, `z` as a list of strings, `q` untyped, while the
     example value also has the fields `` and `m` (residual) and a `z` of another type. -/
 def exampleSchema : Schema :=
